@@ -44,7 +44,7 @@ EXTENDS GovCore
 
 CONSTANTS NV,          \* number of seeded consensus validators v1..vNV
           Mode,        \* "C32" single approvals | "C33" | "C34" | "C35" (composite approval rounds)
-          Areas,       \* subset of {"node","sc","rel","sv"}: Init picks one, so the product is never explored
+          Areas,       \* subset of {"node","nodeA","nodeB","sc","rel","sv"}: Init picks one, so the product is never explored
           MaxView, MaxHeight, MaxId, MaxSigns,
           NWho,        \* 1 or 2 relayer / state-validator lists
           Rich,        \* TRUE: the larger action alphabets of the thorough tier
@@ -86,21 +86,36 @@ Init == /\ \E ar \in Areas : R = Res("ok", S0(ar))
 
 (* action alphabets *)
 ApT == IF Mode = "C32" THEN "ap" ELSE "round"
-Bys == IF Mode = "C32" THEN Validators \cup {"c1", "x"} ELSE {""}
+Bys == IF Mode = "C32" THEN (IF Rich THEN Validators ELSE {"v1", "v2", VN(NV)}) \cup {"c1", "x"} ELSE {""}
 LastV == VN(NV)
-EpochActs == {AQuit(LastV, "l", LastV), ACommit("op"), ABlock}
+EpochActs == {AQuit(LastV, "l", LastV), ACommit("op")} \cup (IF Rich THEN {ABlock} ELSE {})
+
+\* C34, area nodeA: candidacy, hex spellings, owners, indices, one epoch change
+NodeA ==
+    {AReg("c1", "l", "o1"), AReg("c1", "U", "o1"), AReg("c1", "l", "o2"), AReg("c2", "l", "o2"), AReg("v1", "U", "o1"), AReg("v1", "l", "o1")}
+    \cup {AUnreg("c1", "o1"), AUnreg("c1", "o2")}
+    \cup {AQuit("c1", "l", "o1"), AQuit("c1", "U", "o1"), AQuit("c1", "l", "o2"), AQuit(LastV, "l", LastV)}
+    \cup {ANode("round", M_CAND, <<KS("c1", "l")>>, ""), ANode("round", M_CAND, <<KS("c1", "U")>>, ""),
+          ANode("round", M_CAND, <<KS("c2", "l")>>, ""), ANode("round", M_CAND, <<KS("v1", "U")>>, "")}
+    \cup {ACommit("op")}
+    \cup (IF Rich THEN {AReg("c2", "U", "o2"), AReg("c2", "l", "o1"), AUnreg("c2", "o2"), AQuit("c2", "l", "o2"), AReg("c1", "U", "o2"),
+                         ABlock, ANode("round", M_BLACK, <<KS("c1", "U")>>, ""), ANode("round", M_WHITE, <<KS("c1", "U")>>, "")}
+           ELSE {})
+\* C34, area nodeB: membership and epochs (quit, black lists incl. duplicates, white, commit by operator / by anybody, blocks)
+NodeB ==
+    {AReg("c1", "l", "o1"), ANode("round", M_CAND, <<KS("c1", "l")>>, "")}
+    \cup {AQuit("c1", "l", "o1"), AQuit(LastV, "l", LastV)}
+    \cup {ANode("round", M_BLACK, ks, "") : ks \in {<<KS("c1", "l")>>, <<KS(LastV, "l")>>, <<KS("c1", "l"), KS("c1", "l")>>,
+                                                    <<KS("c1", "l"), KS(LastV, "l")>>}}
+    \cup {ANode("round", M_WHITE, <<KS(k, "l")>>, "") : k \in {"c1", LastV}}
+    \cup {ACommit("op"), ACommit("x"), ABlock}
+    \cup (IF Rich THEN {AReg("c2", "l", "o2"), ANode("round", M_CAND, <<KS("c2", "l")>>, ""), AQuit("c2", "l", "o2"), AQuit("v1", "l", "v1")}
+                        \cup {ANode("round", M_BLACK, ks, "") : ks \in {<<KS("v1", "l")>>, <<KS("c1", "l"), KS("c2", "l")>>,
+                                                                        <<KS(LastV, "l"), KS(LastV, "l")>>}}
+           ELSE {})
 
 NodeActs ==
-    IF Mode = "C34" THEN
-        {AReg(k, sp, o) : k \in Cands \cup {"v1"}, sp \in {"l", "U"}, o \in Owners}
-        \cup {AUnreg(k, o) : k \in Cands, o \in Owners}
-        \cup {AQuit(k, sp, o) : k \in Cands, sp \in {"l", "U"}, o \in Owners}
-        \cup {AQuit(LastV, "l", LastV), AQuit("v1", "l", "v1")}
-        \cup {ANode("round", M_CAND, <<KS(k, sp)>>, "") : k \in Cands \cup {"v1"}, sp \in {"l", "U"}}
-        \cup {ANode("round", M_BLACK, ks, "") : ks \in {<<KS("c1", "l")>>, <<KS("c1", "U")>>, <<KS(LastV, "l")>>, <<KS("v1", "l")>>,
-                   <<KS("c1", "l"), KS(LastV, "l")>>, <<KS("c1", "l"), KS("c1", "l")>>, <<KS("c1", "l"), KS("c2", "l")>>}}
-        \cup {ANode("round", M_WHITE, <<KS(k, "l")>>, "") : k \in {"c1", LastV}}
-        \cup {ACommit("op"), ACommit("x"), ABlock}
+    IF Mode = "C34" THEN NodeA \cup NodeB    \* (not used: C34 picks area nodeA or nodeB)
     ELSE
         {AReg("c2", "l", o) : o \in Owners} \cup {AUnreg("c2", o) : o \in Owners}
         \cup {ANode(ApT, M_CAND, <<KS("c2", "l")>>, by) : by \in Bys}
@@ -108,6 +123,7 @@ NodeActs ==
                                    \cup {ANode(ApT, M_WHITE, <<KS("c1", "l")>>, by) : by \in Bys}
               ELSE {})
 
+Full2 == Rich /\ NWho = 2     \* C35 thorough: both chain ids with the full alphabet
 ScIds == IF Mode = "C33" THEN {1} ELSE {1, 2}
 ScActs == {a \in
           {ASc("screg", id, o, v) : id \in ScIds, o \in Owners, v \in (IF Mode = "C32" THEN {"a"} ELSE {"a", "b"})}
@@ -115,9 +131,9 @@ ScActs == {a \in
           \cup {ASc("scquit", id, o, "") : id \in ScIds, o \in Owners}
           \cup {AId(ApT, m, id, by) : m \in ScMethods, id \in ScIds, by \in Bys}
           \* the second chain id only registers and quits (independence of chain ids), owner o2
-          : a.id = 1 \/ (a.t \in (IF Rich THEN {"screg", "scquit"} ELSE {"screg"}) /\ a.own = "o2" /\ a.ver \in {"a", ""})
+          : Full2 \/ a.id = 1 \/ (a.t \in (IF Rich THEN {"screg", "scquit"} ELSE {"screg"}) /\ a.own = "o2" /\ a.ver \in {"a", ""})
                      \/ a.m \in (IF Rich THEN {M_SCREG, M_SCQUIT} ELSE {M_SCREG})}
-C32ScActs == {a \in ScActs : (a.id = 1 /\ a.own # "o2") \/ (a.id = 2 /\ a.t = "screg" /\ a.own = "o1") \/ (a.id = 2 /\ a.m = M_SCREG)}
+C32ScActs == {a \in ScActs : (a.id = 1 /\ a.own # "o2") \/ (Rich /\ a.id = 2 /\ ((a.t = "screg" /\ a.own = "o1") \/ a.m = M_SCREG))}
 
 Ids == 0..(MaxId - 1)
 Whos == IF NWho = 1 THEN {{"r1"}} ELSE {{"r1"}, {"r1", "r2"}}
@@ -128,6 +144,8 @@ SvActs == {AWho("svreg", w, "o1") : w \in Whos} \cup {AWho("svrem", w, "o1") : w
 
 Alphabet(s) ==
     (CASE s.area = "node" -> NodeActs
+       [] s.area = "nodeA" -> NodeA
+       [] s.area = "nodeB" -> NodeB
        [] s.area = "sc" -> IF Mode = "C32" THEN C32ScActs ELSE ScActs
        [] s.area = "rel" -> RelActs
        [] s.area = "sv" -> SvActs)
@@ -159,8 +177,12 @@ Next == \E a \in Alphabet(R.s) :
 Spec == Init /\ [][Next]_vars
 View == <<R.s, G, bad>>
 
+\* C32: at most two (method, request) sign sets at a time, the second one with a single approver v1 or x
+TwoLabels == LET ne == R.s.signs
+             IN Cardinality(ne) <= 2 /\ (Cardinality(ne) = 2 => \E x \in ne : Cardinality(x.by) = 1 /\ x.by \subseteq {"v1", "x"})
 Bound == /\ R.s.view <= MaxView
          /\ Cardinality(UNION {{<<x.m, x.q, b>> : b \in x.by} : x \in R.s.signs}) <= MaxSigns
+         /\ (Mode = "C32" /\ ~Rich) => TwoLabels
 
 (* the properties, on the model *)
 Clauses(p) == {c \in bad : c.p = p}
